@@ -230,10 +230,17 @@ func ZZ_C14_BIG() {
 	wire = append(wire, zzSentinel...)
 	rsize := []int{16, 4096, 8192, 16384}[zz.Choose("rsize", 4)]
 	nreads := zz.Range("nreads", 0, 3)
-	frag := []int{0, 4096, 5000}[zz.Choose("frag", 3)]
+	frag := []int{0, 4096, 5000, 3000}[zz.Choose("frag", 4)]
 	nc := zz.NewNetConn(wire)
 	if frag > 0 {
 		nc.Frag = func(rem int) int { return frag }
+	}
+	// a transient fault (a read time-out, say): one wire read inside the body fails, the
+	// following ones succeed
+	transient := frag > 0 && zz.Choose("transientReadFault", 2) == 1
+	if transient {
+		nc.ReadErrAt = zz.Range("faultyRead", 2, 3) // with 3000-byte fragments read 3 is the first one past the 8 KiB prefetch
+		nc.ReadErrOnce = true
 	}
 	var got []byte
 	eofEarly, readErr := false, false
@@ -267,7 +274,13 @@ func ZZ_C14_BIG() {
 	_ = bodyEnd
 	zz.Cover("reached-assert", true)
 	zz.Cover("read-beyond-prefetch", len(got) > 8192)
-	zz.Assert("no-read-error", !readErr)
+	zz.Assert("no-read-error", !readErr || transient)
+	zz.Cover("transient-fault-seen-by-the-handler", transient && readErr)
+	// when the handler saw the fault and returned, the server answers requests, not pieces of the body: every
+	// response on the wire belongs to a dispatched request
+	if readErr {
+		zz.Assert("no-response-to-bytes-of-the-body", bytes.Count(nc.Out, []byte("HTTP/1.1 ")) <= calls)
+	}
 	zz.Assert("bytes-read-are-a-prefix-of-the-body", len(got) <= len(body) && bytes.Equal(got, body[:minInt(len(got), len(body))]))
 	zz.Assert("eof-only-at-end-of-body", !eofEarly)
 	zz.Cover("pipelined-request-handled", calls == 2) // (that it must be handled is C01's clause: ZZ_C01_BIG)
